@@ -1,4 +1,4 @@
-(* Proofs for C18: the admitted set after any history of loaded file versions. *)
+(* Proofs for C18: the allowed set after any history of loaded file versions. *)
 From RcProxy Require Import Base.Bytes Model.AuthIp.
 Open Scope N_scope.
 
